@@ -28,6 +28,7 @@ from __future__ import print_function
 
 import logging
 import signal
+import threading
 import traceback
 
 from pprint import pformat
@@ -93,7 +94,10 @@ class datasource(PluginType):
     def invoke(self, broker):
         # Grab the timeout from the decorator, or use the default of 120.
 
-        if HostContext in broker:
+        # SIGALRM can only be armed from the main thread; datasources that a
+        # pooled driver runs in a worker thread rely on the command timeouts.
+        use_alarm = HostContext in broker and threading.current_thread() is threading.main_thread()
+        if use_alarm:
             self.timeout = getattr(self, "timeout", 120)
             signal.signal(signal.SIGALRM, self._handle_timeout)
             signal.alarm(self.timeout)
@@ -118,7 +122,7 @@ class datasource(PluginType):
                 broker.add_exception(reg_spec, te, te_tb)
             raise SkipComponent()
         finally:
-            if HostContext in broker:
+            if use_alarm:
                 signal.alarm(0)
 
 
